@@ -158,6 +158,8 @@ reg_op(const c06b_cmd *cm) {
 	case E_ADD: return (tpt_ev_add_args(gb_owner, ev, cm->flags, ff, data, &gb_ud[ch]));
 	case E_ENABLE: return (tpt_ev_enable_args(1, ev, cm->flags, ff, data, &gb_ud[ch]));
 	case E_DISABLE: return (tpt_ev_enable_args(0, ev, cm->flags, ff, data, &gb_ud[ch]));
+	case E_ENABLE1: return (tpt_ev_enable_args1(1, ev, &gb_ud[ch]));
+	case E_DISABLE1: return (tpt_ev_enable_args1(0, ev, &gb_ud[ch]));
 	default: return (tpt_ev_del_args1(ev, &gb_ud[ch]));
 	}
 }
@@ -265,8 +267,8 @@ c06b_run(const c06b_case *c, c06b_out *out) {
 		snap(base);
 		ch = cm->ch % C06_MAX_CH;
 		switch (cm->cmd) {
-		case E_ADD: case E_ENABLE: case E_DISABLE: case E_DEL:
-			if (0 == c->kind[ch])
+		case E_ADD: case E_ENABLE: case E_DISABLE: case E_DEL: case E_ENABLE1: case E_DISABLE1:
+			if (0 == c->kind[ch] || (3 == c->kind[ch] && (E_ENABLE1 == cm->cmd || E_DISABLE1 == cm->cmd)))
 				break;
 			if (cm->outside) {
 				st->rc = reg_op(cm);
